@@ -23,7 +23,7 @@ API (everything else in this file is private)
     ``.text``, ``.fixed_port_id`` (of the message or of the parent service).
 ``expr_of(pydsdl_type) -> expr``; ``fmt_type(expr) -> str``; ``parse_type(str) -> expr``
 ``fmt_value(expr, v) -> str``; ``parse_value(expr, str) -> v``; ``canon_value(expr, v)`` (NaN canonicalised)
-``gen_value(rng, expr, oob=True, p_invalid=0.0) -> v``   boundary-biased value in the C/C++ *storage* range
+``gen_value(rng, expr, oob=True, p_invalid=0.0, nan_payloads=False) -> v``   boundary-biased value in the C/C++ *storage* range
 ``gen_byte_strings(rng, encodings, n_random, max_len) -> [bytes]``  truncations / extensions / flips / random / empty
 
 Protocol types as Python data:  ``('u',N,'s'|'t') ('i',N,M) ('f',N,M) ('b',) ('v',N) ('a',T,N) ('l',T,N)
@@ -676,7 +676,31 @@ F64_SPECIALS = [0.0, -0.0, math.inf, -math.inf, math.nan, 1.7976931348623157e308
                 2.2250738585072014e-308, 1.0, -1.0, 0.1, 9007199254740993.0, 3.4028234663852886e38, 3.4028235677973366e38, 1e39, -1e39]
 
 
-def _gen_prim(rng, e, oob):
+# NaNs by bit pattern (not only float('nan')): signalling and quiet, both signs, payload in the high bits only, in the
+# LOW bits only (below what the next narrower format keeps), everywhere.  binary32 patterns are for float16 / float32
+# fields (their C/C++ storage is `float`; the shims rebuild exactly this pattern), binary64 patterns for every width.
+NAN32_PATTERNS = [0x7FC00000, 0xFFC00000, 0x7F800001, 0xFF800001, 0x7F801FFF, 0xFF801FFF, 0x7F800100, 0x7F802000, 0x7FA00000,
+                  0xFFA00000, 0x7FBFFFFF, 0x7FFFFFFF, 0xFFFFFFFF, 0x7FC00001, 0x7FE00000]
+NAN64_PATTERNS = [0x7FF8000000000000, 0xFFF8000000000000, 0x7FF0000000000001, 0xFFF0000000000001, 0x7FF4000000000000,
+                  0x7FF000001FFFFFFF, 0x7FF0000020000000, 0x7FFFFFFFFFFFFFFF, 0xFFF7FFFFFFFFFFFF]
+
+
+def nan32_as_double(bits32):
+    """The binary64 NaN that carries a binary32 NaN pattern (payload in the leading mantissa bits, quiet bit as given)."""
+    return bits2f(((bits32 >> 31) << 63) | (0x7FF << 52) | ((bits32 & 0x7FFFFF) << 29))
+
+
+def _gen_nan(rng, n):
+    r = rng.random()
+    if n < 64 and r < 0.75:
+        b = rng.choice(NAN32_PATTERNS) if r < 0.6 else (rng.getrandbits(1) << 31) | 0x7F800000 | rng.randint(1, 0x7FFFFF)
+        return nan32_as_double(b)
+    if r < 0.9 or n < 64:
+        return bits2f(rng.choice(NAN64_PATTERNS))
+    return bits2f((rng.getrandbits(1) << 63) | (0x7FF << 52) | rng.randint(1, (1 << 52) - 1))
+
+
+def _gen_prim(rng, e, oob, nanp=False):
     k = e[0]
     if k == "b":
         return rng.randint(0, 1)
@@ -694,6 +718,8 @@ def _gen_prim(rng, e, oob):
         return rng.choice(c)
     if k == "f":
         n = e[1]
+        if nanp and rng.random() < 0.07:
+            return _gen_nan(rng, n)
         r = rng.random()
         if n == 16:
             if r < 0.45:
@@ -731,20 +757,22 @@ def _gen_prim(rng, e, oob):
     raise ValueError(e)
 
 
-def gen_value(rng, e, oob=True, p_invalid=0.0, _depth=0):
+def gen_value(rng, e, oob=True, p_invalid=0.0, _depth=0, nan_payloads=False):
     """
     Boundary-biased value of protocol type ``e``.  Integers stay inside the C/C++ storage type of the field
     (uintN -> uint8/16/32/64_t, intN likewise); ``oob=False`` keeps every number inside the DSDL range (what the
     Python target's setters accept).  With probability ``p_invalid`` per variable array / union the value gets a
-    length above the capacity / an option index >= the option count.
+    length above the capacity / an option index >= the option count.  ``nan_payloads``: floats are now and then NaNs given
+    by bit pattern (signalling / quiet, both signs, payload in the high or only in the low mantissa bits) instead of the
+    one canonical quiet NaN — only for consumers that compare NaNs through decoding (payloads are outside the specification).
     """
     k = e[0]
     if k in "uifb":
-        return _gen_prim(rng, e, oob)
+        return _gen_prim(rng, e, oob, nan_payloads)
     if k == "v":
         return None
     if k == "a":
-        return [gen_value(rng, e[1], oob, p_invalid, _depth + 1) for _ in range(e[2])]
+        return [gen_value(rng, e[1], oob, p_invalid, _depth + 1, nan_payloads) for _ in range(e[2])]
     if k == "l":
         cap = e[2]
         if cap > 400:
@@ -754,18 +782,18 @@ def gen_value(rng, e, oob=True, p_invalid=0.0, _depth=0):
         if p_invalid and rng.random() < p_invalid and cap < 100000:
             n = cap + rng.choice([1, 1, 2, 7])
         n = min(n, cap + 7)
-        return [gen_value(rng, e[1], oob, p_invalid, _depth + 1) for _ in range(n)]
+        return [gen_value(rng, e[1], oob, p_invalid, _depth + 1, nan_payloads) for _ in range(n)]
     if k == "s":
-        return [gen_value(rng, f, oob, p_invalid, _depth + 1) for f in e[1]]
+        return [gen_value(rng, f, oob, p_invalid, _depth + 1, nan_payloads) for f in e[1]]
     if k == "n":
         nopt = len(e[1])
         if p_invalid and rng.random() < p_invalid:
             kk = rng.choice([nopt, nopt + 1, 255, nopt + 100])
             return (kk, None)
         kk = rng.randrange(nopt)
-        return (kk, gen_value(rng, e[1][kk], oob, p_invalid, _depth + 1))
+        return (kk, gen_value(rng, e[1][kk], oob, p_invalid, _depth + 1, nan_payloads))
     if k == "d":
-        return gen_value(rng, e[2], oob, p_invalid, _depth)
+        return gen_value(rng, e[2], oob, p_invalid, _depth, nan_payloads)
     raise ValueError(e)
 
 
